@@ -13,7 +13,7 @@ from pgverif.monitors import tree as TM
 
 TIERS = {
     'quick': dict(shards=8, cases=40, steps=30),
-    'thorough': dict(shards=16, cases=1500, steps=50),
+    'thorough': dict(shards=16, cases=400, steps=50),
 }
 RULE = ('case = one forest (1-3 roots, depth <= 3) mixing objects that override '
         '_on_change, objects that override only _on_bound, plain/typed objects '
@@ -94,6 +94,17 @@ def typed_desc(rng):
   return d
 
 
+def dict_key(rng):
+  """Mostly identifiers; a few int keys and str keys that contain key-path
+  syntax (balanced: an unbalanced bracket is rejected at construction)."""
+  r = rng.random()
+  if r < 0.05:
+    return rng.choice(['a.b', 'p.q', 'k[1]'])
+  if r < 0.1:
+    return rng.randint(0, 3)
+  return V.key(rng, ints=False)
+
+
 def gen_desc(rng, depth=2, symbolic=None):
   r = rng.random()
   if depth <= 0 or r < 0.3:
@@ -104,7 +115,7 @@ def gen_desc(rng, depth=2, symbolic=None):
   if r < 0.52:
     keys = []
     for _ in range(n):
-      kk = V.key(rng, ints=False)
+      kk = dict_key(rng)
       if kk not in keys:
         keys.append(kk)
     return ['D' if sym else 'd', [[kk, sub()] for kk in keys]]
@@ -198,16 +209,75 @@ def rebind_ok(step, node):
   return True
 
 
+def is_hyper(v):
+  return isinstance(v, pg.hyper.HyperValue)
+
+
 def in_hyper(forest, ridx, keys):
   """True for nodes at or below a search-space placeholder."""
   n = forest[ridx]
-  if isinstance(n, pg.hyper.HyperValue):
+  if is_hyper(n):
     return True
   for k in keys:
     n = n.sym_getattr(k)
-    if isinstance(n, pg.hyper.HyperValue):
+    if is_hyper(n):
       return True
   return False
+
+
+def contains_hyper(node):
+  return any(is_hyper(n) for n, _ in TM.nodes_of(node))
+
+
+def through_hyper(node, rel):
+  """True when the container of the location `rel` is (in) a placeholder."""
+  n = node
+  for k in rel[:-1]:
+    n = n.sym_getattr(k)
+    if is_hyper(n):
+      return True
+  return False
+
+
+def gen_rebind(g, n):
+  """Batched rebind: 1-6 paths spread over the sub-tree of `n` (same argument
+  format as the 'rebind' entry of gen.ops, whose `run` is used)."""
+  targets = [t for t in O.rel_targets(n, g.rng) if not through_hyper(n, t)]
+  if not targets:
+    return None
+  k = g.rng.choice([1, 1, 1, 2, 2, 3, 3, 4, 5, 6])
+  g.rng.shuffle(targets)
+  rels = O.no_prefix_pairs(targets[:3 * k])[:k]
+  ups = []
+  for rel in rels:
+    parent = O.node_at(n, rel[:-1])
+    r = g.rng.random()
+    if r < 0.12 and isinstance(parent, (pg.Dict, pg.List)):
+      v = ['missing']
+    elif r < 0.25 and isinstance(parent, pg.List):
+      v = ['ins', g.value(parent, rel[-1])]
+    else:
+      v = g.value(parent, rel[-1])
+    ups.append([rel, v])
+  opts = {}
+  if g.rng.random() < 0.1:
+    opts['skip_notification'] = True
+  if g.rng.random() < 0.12:
+    opts['notify_parents'] = False
+  form = 'dict'
+  if (not isinstance(n, pg.List) and g.rng.random() < 0.25 and
+      all(len(r) == 1 and isinstance(r[0], str) and r[0].isidentifier()
+          and r[0] not in ('path_value_pairs', 'raise_on_no_change',
+                           'notify_parents', 'skip_notification')
+          for r, _ in ups)):
+    form = 'kwargs'
+  return {'updates': ups, 'opts': opts, 'form': form,
+          'style': g.rng.choice(['raw', 'keypath', 'str']),
+          'api': g.rng.choice(['rebind', 'rebind', 'sym_rebind'])}
+
+
+OP_WEIGHT = {'rebind': 5.0, 'rebind[fn]': 1.0, 'set_accessor_writable': 0.4,
+             'Object.__setattr__': 3.0}
 
 
 def gen_step(rng, forest):
@@ -220,9 +290,16 @@ def gen_step(rng, forest):
              if o.name not in EXCLUDED_OPS]
     if not cands:
       continue
-    o = rng.choice(cands)
+    o = rng.choices(cands, [OP_WEIGHT.get(x.name, 1.0) for x in cands])[0]
+    if o.name == 'rebind' and keys and rng.random() < 0.4:
+      k = rng.randrange(len(keys))        # batch from an ancestor (or the root)
+      keys = keys[:k]
+      node = D.resolve(forest, ridx, keys)
+    if o.name == 'rebind[fn]' and contains_hyper(node):
+      continue      # the function form would rewrite the inside of placeholders
     vs = Values(forest, (ridx, keys))
-    args = o.gen(O.GenEnv(rng, vs, forest), node)
+    g = O.GenEnv(rng, vs, forest)
+    args = gen_rebind(g, node) if o.name == 'rebind' else o.gen(g, node)
     if args is None:
       continue
     sc = [name for name, p in P_SCOPE.items() if rng.random() < p]
@@ -289,8 +366,8 @@ def run_case(ctx, i):
 
   # A freshly built forest must already be fresh.
   ctx.label = 'derived-getters'
-  t0 = DV.touch(forest, c)
-  for p in DV.check(forest, c, t0)[:1]:
+  pre_facts = DV.touch(forest, c)
+  for p in DV.check(forest, c, pre_facts)[:1]:
     ctx.violation('stale-derived', 'construction', str(p)[:600], witness())
     return
   ctx.label = None
@@ -300,8 +377,8 @@ def run_case(ctx, i):
     step, aliased = gen_step(rng, forest)
     if step is None:
       break
-    ctx.label = 'derived-getters'
-    pre_facts = DV.touch(forest, c)          # populates every memo
+    # Every getter has been called on every node (after the previous step,
+    # after construction or after a heal): all memos are populated.
     ctx.label = 'snapshot'
     pre = N.Snap(forest)
     ctx.label = step['op']
@@ -336,12 +413,13 @@ def run_case(ctx, i):
                                 suppressed=suppressed, below_only=below)
       if not suppressed and c['events_expected_and_delivered'] > before:
         notified_steps += 1
-      seen_clause = set()
-      for clause, detail in problems:
-        if clause in seen_clause:
+      seen_key = set()
+      for clause, detail, mech in problems:
+        mech = mech or mechanism(step, status, False)
+        if (clause, mech) in seen_key:
           continue
-        seen_clause.add(clause)
-        ctx.violation(clause, mechanism(step, status, False),
+        seen_key.add((clause, mech))
+        ctx.violation(clause, mech,
                       f'after step {len(trace)}: {trace[-1]}\n{detail}', witness())
     else:
       c['steps_rejected'] += 1
@@ -355,9 +433,10 @@ def run_case(ctx, i):
     stale = DV.check(forest, c, post_facts)
     ctx.label = None
     c['derived_checks'] += 1
-    if DV.summary(pre_facts) != DV.summary(post_facts):
+    if DV.root_facts_changed(pre_facts, post_facts):
       derived_changed += 1
       c['derived_changed_steps'] += 1
+    pre_facts = post_facts
     if stale:
       ridx, keys, tname, fact, live, fresh = stale[0]
       names = sorted({s[3] for s in stale})
@@ -378,7 +457,8 @@ def run_case(ctx, i):
         c['abandoned_histories'] += 1
         break
       forest[:] = new
-      if DV.check(forest, c):
+      pre_facts = DV.touch(forest, c)
+      if DV.check(forest, c, pre_facts):
         c['abandoned_histories'] += 1
         break
     if H.total_size(forest) > 300:
